@@ -330,7 +330,10 @@ TraceClean ==
          MayIds  == [p \in usedM |-> {IdOfHeader(h) : h \in MayList(p)}]
          ReqL(id) == Cardinality({p \in usedM : id \in MustIds[p]})
          MaxL(id) == Cardinality({p \in usedM : id \in MayIds[p]})
-         listMM ==
+         \* listing is judged only when every used file is a sequence of frames (premise of C09);
+         \* what Clean does to the frames of a malformed file is still judged per entry below
+         allWF == \A p \in usedM : PP0[p].wellformed
+         listMM == IF ~allWF THEN <<>> ELSE
            SetToSeq({MM("clean.entry.unlisted", ToString(ReqL(id)), ToString(CountIn(sum.tests, id)), "", "", id, "")
                       : id \in {id \in ids : CountIn(sum.tests, id) < ReqL(id)}})
            \o SetToSeq({MM("clean.entry.overlisted", ToString(MaxL(id)), ToString(CountIn(sum.tests, id)), Why(NameOfId(id)), "", id,
@@ -354,18 +357,18 @@ TraceClean ==
                             ELSE IF ~del THEN "nodelete" ELSE "unlisted")
                          : h \in {h \in removed : IsAddr(p, h) \/ Prot(h) \/ ~del \/ h \notin listedH}})
             \o SetToSeq({MM("clean.entry.kept", "", "", "", p, h, "") :
-                          h \in {h \in e0 \cap e1 : del /\ h \in MayList(p) /\ h \in listedH}})
-            \o SetToSeq({MM("clean.entry.added", "", "", "", p, h, "") : h \in e1 \ e0})
+                          h \in {h \in e0 \cap e1 : p0.wellformed /\ del /\ h \in MayList(p) /\ h \in listedH}})
+            \o SetToSeq({MM("clean.entry.added", "", "", "", p, h, "") : h \in {h \in e1 \ e0 : p0.wellformed}})
             \o SetToSeq({MM("clean.entry.value", "", "", WhyH(h), p, h,
                             IF IsAddr(p, h) THEN "addressed" ELSE IF Prot(h) THEN "protected" ELSE "other")
                          : h \in {h \in e0 \cap e1 : BodyOf(p0, h) # BodyOf(p1, h)}})
-            \o (IF IsFile(f1, p) /\ ~p1.wellformed THEN <<MM("clean.file.malformed", "", "", "", p, "", "")>> ELSE <<>>)
-            \o (IF srt /\ p1.wellformed /\ e1 \subseteq e0
+            \o (IF IsFile(f1, p) /\ p0.wellformed /\ ~p1.wellformed THEN <<MM("clean.file.malformed", "", "", "", p, "", "")>> ELSE <<>>)
+            \o (IF srt /\ p0.wellformed /\ p1.wellformed /\ e1 \subseteq e0
                    /\ ~IsNaturallySorted([i \in DOMAIN p1.order |-> IdOfHeader(p1.order[i])])
                 THEN <<MM("clean.unsorted", "", "", "", p, "", "")>> ELSE <<>>)
-            \o (IF ~srt /\ p1.wellformed /\ e1 \subseteq e0 /\ p1.order # survivorsOrder0
+            \o (IF ~srt /\ p0.wellformed /\ p1.wellformed /\ e1 \subseteq e0 /\ p1.order # survivorsOrder0
                 THEN <<MM("clean.reordered", "", "", "", p, "", "")>> ELSE <<>>)
-            \o (IF touched /\ removed = {} /\ (~srt \/ sorted0) /\ e1 = e0
+            \o (IF touched /\ p0.wellformed /\ removed = {} /\ (~srt \/ sorted0) /\ e1 = e0
                 THEN <<MM("clean.needless_write", "", "", "", p, "", IF mode.ci THEN "ci" ELSE "")>> ELSE <<>>)
          \* ---- other files directly inside visited directories
          cands == {p \in DOMAIN f0 : f0[p].kind = "file" /\ f0[p].dir \in visited
